@@ -139,12 +139,20 @@ class Executor:
                             names = names[:1]
                         s = self.slots[op.get('slot', 0) % len(self.slots)]
                         target = s[1] if (s[0] == 'multi' and op.get('through_multi')) else ch
+                        by_object = False
                         if target is not ch and how == 'object':
-                            arg = names  # a task object belongs to one member chain; through the MultiChain use names
+                            # through the MultiChain a task OBJECT can be given only if every member holds that very
+                            # object (under whatever name it is mounted there); otherwise names are used
+                            objs = [ch.tasks[n] for n in names]
+                            members = [s[1][m_] for m_ in s[2]]
+                            if all(any(t_ is o_ for t_ in m_.tasks.values()) for o_ in objs for m_ in members):
+                                arg, by_object = objs, True
+                            else:
+                                arg = names
                         if how == 'generator':
                             arg = (n_ for n_ in names)  # any iterable of names is accepted, also a one-shot one
                         target.force(arg, recompute=op.get('recompute', False), delete_data=op.get('delete', False))
-                        res = {'tasks': names}
+                        res = {'tasks': names, 'by_object': by_object}
                     elif kind == 'inspect':
                         res = self.inspect(ch, op['what'])
                     elif kind == 'loglevel':
@@ -630,13 +638,22 @@ class StoreModel:
             targets = sl_[1] if (sl_[0] == 'multi' and op.get('through_multi')) else [mch]
             all_forced = []
             nt_stats = []
+            by_object = bool((obs.get('result') or {}).get('by_object'))
+            given = [mch.by_name[n] for n in names] if by_object else None
             for ch in targets:
-                if any(n not in ch.by_name for n in names):
-                    # MultiChain.force with a task missing from a member chain: outside the generated domain
-                    raise model.OutOfDomain('MultiChain.force with a task that is not in every member')
+                if by_object:
+                    # the very objects, under whatever names this member mounts them
+                    members_objs = set(ch.by_name.values())
+                    if any(o not in members_objs for o in given):
+                        raise model.OutOfDomain('MultiChain.force with a task object that is not in every member')
+                    roots_ = list(given)
+                else:
+                    if any(n not in ch.by_name for n in names):
+                        # MultiChain.force with a task missing from a member chain: outside the generated domain
+                        raise model.OutOfDomain('MultiChain.force with a task that is not in every member')
+                    roots_ = [ch.by_name[n] for n in names]
                 closure = set()
-                for n in names:
-                    o = ch.by_name[n]
+                for o in roots_:
                     closure.add(o)
                     closure |= ch.descendants(o)
                 all_objs = set(ch.by_name.values())
